@@ -23,7 +23,7 @@ def step (_ : Unit) (ws : List String) : Unit × String :=
     match ofHex h with
     | none => ((), "bad-op")
     | some d =>
-      let rv := reserveOf Gen.reserveCapped (d.length + 1) d
+      let rv := reserveOf Gen.reserveCapped (maxNesting + 1) d
       match parseBytes d with
       | .need => ((), s!"need {rv}")
       | .err => ((), s!"err {rv}")
